@@ -11,11 +11,13 @@ import (
 	"fmt"
 	"math"
 	"net/url"
+	"reflect"
 	"regexp"
 	"sort"
 	"strconv"
 	"strings"
 	"unicode/utf8"
+	"unsafe"
 
 	"github.com/go-openapi/strfmt"
 )
@@ -468,3 +470,6 @@ func strs(a []string) []interface{} {
 	}
 	return out
 }
+
+// PtrOf returns the address held by a pointer value.
+func PtrOf(p interface{}) unsafe.Pointer { return reflect.ValueOf(p).UnsafePointer() }
